@@ -164,11 +164,29 @@ TOGGLES = ["conv_stride", "dw_stride", "conv_dil_h", "conv_dil_h_by_dilation", "
            "maxpool_stride", "maxpool_kh", "maxpool_prod", "avgpool_k", "argmax_depth", "dw_mult", "mean_w", "tconv_stride", "hswish_type", "add_types", "relu_rank"]
 
 
-def placement(spec, out_model):
-    """'npu' | 'cpu' | 'other' for the single operator of spec"""
+FOLLOWERS = {"TANH": (1.0 / 128, 0), "LOGISTIC": (1.0 / 256, -128), "RELU": None}
+
+
+def add_follower(spec, code):
+    """append an operator that is within every documented constraint (8-bit activation of the first operator's output)"""
+    import copy
+
+    spec = copy.deepcopy(spec)
+    src = spec["ops"][0]["outputs"][0]
+    t = spec["tensors"][src]
+    q = FOLLOWERS[code] or (t["scale"], t["zp"])
+    t["name"] = "intermediate"
+    spec["tensors"].append(dict(name="follower_output", shape=t["shape"], dtype=t["dtype"], scale=q[0], zp=q[1], data=None, qdim=0))
+    spec["ops"].append(dict(code=code, inputs=[src], outputs=[len(spec["tensors"]) - 1], opts=None, version=1))
+    spec["outputs"] = [len(spec["tensors"]) - 1]
+    return spec
+
+
+def placement(spec, out_model, index=0):
+    """'npu' | 'cpu' | 'other' for operator `index` of spec"""
     sg = out_model["subgraphs"][0]
-    code = spec["ops"][0]["code"]
-    out_name = spec["tensors"][spec["ops"][0]["outputs"][0]]["name"]
+    code = spec["ops"][index]["code"]
+    out_name = spec["tensors"][spec["ops"][index]["outputs"][0]]["name"]
     names = {i: t["name"] for i, t in enumerate(sg["tensors"])}
     present = [o for o in sg["ops"] if o["code"] == code and o["custom_code"] is None]
     npu = [o for o in sg["ops"] if o["custom_code"] == "ethos-u" and out_name in [names[t] for t in o["outputs"]]]
@@ -181,6 +199,12 @@ def placement(spec, out_model):
 
 def oracle(case, rec=None):
     spec, key = build_case(case["toggle"], case["side"], case["c"])
+    follower = case.get("follower")
+    ot = spec["tensors"][spec["ops"][0]["outputs"][0]]
+    if follower and (ot["dtype"] != "int8" or len(ot["shape"]) != 4 or ot["shape"][0] != 1 or max(ot["shape"]) > 65535 or ot["scale"] is None):
+        follower = None  # the follower must itself be within every documented constraint (8-bit, rank 4, batch 1, dimensions in range)
+    if follower:
+        spec = add_follower(spec, follower)
     cfg = dict(accel=case["accel"], memory_mode="default", optimise="Performance", allocator="HillClimb", cpu_tensor_alignment=16, max_block_dependency=3)
     full = dict(kind="e2e", spec=spec, cfg=cfg)
     art, res = e2e.compile_case(full)
@@ -190,6 +214,15 @@ def oracle(case, rec=None):
         raise Violation("C16/compile-failed/%s" % case["toggle"], "single-operator network (%s, %s) did not compile: %s" % (case["toggle"], case["side"], (res.get("exc") or [None, res.get("stdout", "")[-200:]])[1]), case)
     got = placement(spec, art.model)
     want = "npu" if case["side"] == "in" else "cpu"
+    if follower:
+        # the follower is within every documented constraint whatever happens to its producer: it must be produced by an Ethos-U operator
+        fgot = placement(spec, art.model, 1)
+        if fgot != "npu":
+            raise Violation("C16/placement/follower-%s" % follower, "%s after a %s that is %s: the activation is within the documented constraints but is placed on the %s on %s" % (
+                follower, spec["ops"][0]["code"], "accelerated" if want == "npu" else "left on the CPU (%s violated)" % SENT.get(key, key), fgot.upper(), case["accel"]), case)
+        if want == "npu":
+            sg = art.model["subgraphs"][0]
+            got = "npu" if not [o for o in sg["ops"] if o["code"] == spec["ops"][0]["code"] and o["custom_code"] is None] else "cpu"
     if got != want:
         raise Violation("C16/placement/%s-%s" % (case["toggle"], case["side"]),
                         "%s with the documented constraint '%s' %s is placed on the %s (expected %s) on %s" % (
@@ -208,7 +241,8 @@ def oracle(case, rec=None):
 def case_strategy():
     from hypothesis import strategies as st
 
-    return st.fixed_dictionaries(dict(kind=st.just("placement"), toggle=st.sampled_from(TOGGLES), side=st.sampled_from(["in", "out"]), accel=st.sampled_from(tflgen.ACCELS), c=st.integers(1, 8)))
+    return st.fixed_dictionaries(dict(kind=st.just("placement"), toggle=st.sampled_from(TOGGLES), side=st.sampled_from(["in", "out"]), accel=st.sampled_from(tflgen.ACCELS), c=st.integers(1, 8),
+                                      follower=st.sampled_from([None, None, "TANH", "LOGISTIC", "RELU"])))
 
 
 def placements(ctx, arg, rec):
@@ -226,7 +260,7 @@ def grid(ctx, arg, rec):
             if i % nshards != shard:
                 continue
             s = sub_seed(ctx.seed, t, side)
-            case = dict(kind="placement", toggle=t, side=side, accel=tflgen.ACCELS[s % 6], c=1 + (s >> 3) % 8)
+            case = dict(kind="placement", toggle=t, side=side, accel=tflgen.ACCELS[s % 6], c=1 + (s >> 3) % 8, follower=[None, "TANH", "LOGISTIC", "RELU"][(s >> 7) % 4])
             rec.case()
             try:
                 rec.check(oracle, case, rec)
